@@ -2,7 +2,7 @@
   Lemmas behind C05 "intact": while the level of a modal entry is open, the part of the stack that was
   beneath the entry when it was pushed is not touched (only `schedule_screen` inserts beneath it).
 -/
-import Simpleline.Lemmas.ShapeShield
+import Simpleline.Lemmas.ShapeShieldFix
 
 namespace Simpleline
 
@@ -165,16 +165,17 @@ theorem WFQuietDrain.mono {c c' : Cfg} (g : Grow c c') (h : WFQuietDrain c') : W
   rw [hn] at h
   exact drainQuietScan_append _ h
 
-/-- the history hypotheses of the intact clause -/
+/-- the history hypotheses of the intact clause (`NoErr` is not among them: since `close_screen` checks
+`closed_from` before it pops, quiescence outside the windows needs no such hypothesis —
+`quiescent_of_head_fix`) -/
 structure IntactHyps (c : Cfg) : Prop where
-  ne : NoErr c
   qd : WFQuietDrain c
   wc : WFClose c
   wd : WFDrain c
   nf : NoForceQuit c
 
 theorem IntactHyps.mono {c c' : Cfg} (g : Grow c c') (h : IntactHyps c') : IntactHyps c :=
-  ⟨NoErr.mono g h.ne, WFQuietDrain.mono g h.qd, WFClose.mono g h.wc, WFDrain.mono g h.wd, NoForceQuit.mono g h.nf⟩
+  ⟨WFQuietDrain.mono g h.qd, WFClose.mono g h.wc, WFDrain.mono g h.wd, NoForceQuit.mono g h.nf⟩
 
 theorem overCode_frame (X : List Instr) (q : Nat) (K : List Instr) : overCode (X ++ .mainCheck q :: K) = false := by
   cases X with
@@ -309,7 +310,7 @@ theorem intact (h0 : Started c0) (hi : InitScreenOnly c0) (hP : ScreenOnly P) (h
   have hKL : markersA K = c.L.levels.reverse := by rw [hKm, hlev']
   have hqL : q ∉ c.L.levels := fun hm => Nat.lt_irrefl _ ((reach_basic h0 hr).llt q hm)
   have hcnt0 : modalCount c.A.stack + 1 = c.L.levels.length := by
-    rcases quiescent_of_head h0 hi hP hC hr (NoErr.mono g03 hh.ne) (WFQuietDrain.mono g03 hh.qd) hc rfl with
+    rcases quiescent_of_head_fix h0 hi hP hC hr (WFQuietDrain.mono g03 hh.qd) hc rfl with
       ho | ⟨_, _, h3⟩
     · have : overCode c.code = true := ho
       rw [hc] at this; cases K0 <;> cases this
@@ -363,7 +364,7 @@ theorem intact (h0 : Started c0) (hi : InitScreenOnly c0) (hP : ScreenOnly P) (h
               exact haft (newTr ca cb ++ t1) t0 (by rw [hsplit, h2, List.append_assoc]) w st
                 (List.mem_append_left _ hopm)
           have hcnt : modalCount ca.A.stack + 1 = ca.L.levels.length := by
-            rcases quiescent_of_head h0 hi hP hC hra0 hha.ne hha.qd (show ca.code = h :: rest from hcode) hwin with
+            rcases quiescent_of_head_fix h0 hi hP hC hra0 hha.qd (show ca.code = h :: rest from hcode) hwin with
               ho | ⟨_, _, h3⟩
             · have : overCode ca.code = true := ho
               rw [hX, overCode_frame] at this; cases this
@@ -403,7 +404,7 @@ theorem intact (h0 : Started c0) (hi : InitScreenOnly c0) (hP : ScreenOnly P) (h
       have h7 : markersA K = c2.L.levels.reverse := (List.cons.inj h6).2
       exact List.reverse_inj.1 (h7.symm.trans hKL)
   have hcnt2 : modalCount c2.A.stack + 1 = c2.L.levels.length := by
-    rcases quiescent_of_head h0 hi hP hC hr02 hh2.ne hh2.qd hc2 rfl with ho | ⟨_, _, h3⟩
+    rcases quiescent_of_head_fix h0 hi hP hC hr02 hh2.qd hc2 rfl with ho | ⟨_, _, h3⟩
     · have : overCode c2.code = true := ho
       rw [hc2] at this; cases this
     · exact h3
@@ -436,18 +437,31 @@ theorem noOpAfterClose_spec {q : Nat} {t1 t0 : List Tr} (h : noOpAfterCloseB q (
       simp [Tr.isStackOp'] at h2
     · exact ih h.2 w st h1
 
-/-- the property-level statement -/
-theorem intact' (h0 : Started c0) (hi : InitScreenOnly c0) (hP : ScreenOnly P) (hC : ClosedSilent P)
+/-- the property-level statement, without `NoErr` -/
+theorem intact'_fix (h0 : Started c0) (hi : InitScreenOnly c0) (hP : ScreenOnly P) (hC : ClosedSilent P)
     (hr : Reach P c0 c) {scr : Nat} {args : Option Nat} {K0 : List Instr}
     (hc : c.code = .pushModal scr args :: K0) (hs1 : step P c = .ok c') (hs2 : step P c' = .ok c1)
     (hr2 : Reach P c1 c2) (ht : Trans P c2 c3) (hret : Tr.loopReturn c.L.queues.length ∈ newTr c2 c3)
-    (hn : NoErr c3) (hq : WFQuietDrain c3) (hw : WFClose c3) (hd : WFDrain c3) (hf : NoForceQuit c3)
+    (hq : WFQuietDrain c3) (hw : WFClose c3) (hd : WFDrain c3) (hf : NoForceQuit c3)
     (hafter : NoStackOpAfterClose c.L.queues.length (newTr c1 c2)) :
     (∃ ins, c2.A.stack = ins ++ c.A.stack ∧ ∀ y ∈ ins, y.modal = false) ∧
     c2.code = .mainCheck c.L.queues.length :: .modalRet ⟨c.A.nextEid, scr, args, true⟩ :: K0 ∧
     c3.code = .restoreRun :: .modalRet ⟨c.A.nextEid, scr, args, true⟩ :: K0 ∧ c3.A.stack = c2.A.stack :=
-  intact h0 hi hP hC hr hc hs1 hs2 hr2 ht hret ⟨hn, hq, hw, hd, hf⟩
+  intact h0 hi hP hC hr hc hs1 hs2 hr2 ht hret ⟨hq, hw, hd, hf⟩
     (fun t1 t0 h => noOpAfterClose_spec (by rw [← h]; exact hafter))
+
+/-- the property-level statement as it was proved before `close_screen` was fixed: with the (now
+superfluous) hypothesis `NoErr` -/
+theorem intact' (h0 : Started c0) (hi : InitScreenOnly c0) (hP : ScreenOnly P) (hC : ClosedSilent P)
+    (hr : Reach P c0 c) {scr : Nat} {args : Option Nat} {K0 : List Instr}
+    (hc : c.code = .pushModal scr args :: K0) (hs1 : step P c = .ok c') (hs2 : step P c' = .ok c1)
+    (hr2 : Reach P c1 c2) (ht : Trans P c2 c3) (hret : Tr.loopReturn c.L.queues.length ∈ newTr c2 c3)
+    (_hn : NoErr c3) (hq : WFQuietDrain c3) (hw : WFClose c3) (hd : WFDrain c3) (hf : NoForceQuit c3)
+    (hafter : NoStackOpAfterClose c.L.queues.length (newTr c1 c2)) :
+    (∃ ins, c2.A.stack = ins ++ c.A.stack ∧ ∀ y ∈ ins, y.modal = false) ∧
+    c2.code = .mainCheck c.L.queues.length :: .modalRet ⟨c.A.nextEid, scr, args, true⟩ :: K0 ∧
+    c3.code = .restoreRun :: .modalRet ⟨c.A.nextEid, scr, args, true⟩ :: K0 ∧ c3.A.stack = c2.A.stack :=
+  intact'_fix h0 hi hP hC hr hc hs1 hs2 hr2 ht hret hq hw hd hf hafter
 
 end Shape
 
